@@ -46,3 +46,11 @@ func init() {
 func init() {
 	registerReplay([]string{"dht/exts/getput.startGetTraversal$1"}, "exts/getput", "getput/getput_replay_test.go", "TestGovcReplayGetput")
 }
+
+func init() {
+	for _, n := range []string{"(*dht/traversal.Operation).startQuery#call:no-address-is-queried-twice", "(*dht/traversal.Operation).addNodeLocked#call:only-addresses-not-yet-queried",
+		"(*dht/traversal.Operation).addNodeLocked#call:only-contacts-that-pass-the-node-filter", "(*dht/traversal.Operation).run#call:within-the-fan-out-bound"} {
+		noModelReplay[n] = true
+	}
+	registerReplay([]string{"(*dht/traversal.Operation).startQuery", "(*dht/traversal.Operation).addNodeLocked", "(*dht/traversal.Operation).run"}, "traversal", "traversal/traversal_replay_test.go", "TestGovcReplayTraversal")
+}
